@@ -173,6 +173,7 @@ impl C11 {
         ctx.eval();
         ctx.set_input(&v.to_string());
         ctx.nontrivial(hash_bytes(&v.to_le_bytes()));
+        self.foreign_number(ctx, v);
         let fits = i64::try_from(v).is_ok();
         let want = if fits { Some(RVal::Int(v as i64)) } else { None };
         let texts = guarded(|| {
@@ -196,6 +197,27 @@ impl C11 {
             l.push(("toml::to_string(i128)", toml::to_string(&W { v }).map_err(|e| e.to_string())));
             l.push(("toml_edit::ser::to_string(i128)", toml_edit::ser::to_string(&W { v }).map_err(|e| e.to_string())));
             l.push(("toml::Table::try_from(i128)", toml::Table::try_from(W { v }).map(|x| x.to_string()).map_err(|e| e.to_string())));
+            // the same number as the value of a map entry (not a struct field)
+            {
+                let mut m = std::collections::BTreeMap::new();
+                m.insert("a".to_string(), 1i128);
+                m.insert("v".to_string(), v);
+                l.push(("toml::to_string(map of i128)", toml::to_string(&m).map(|t| t.replace("a = 1\n", "")).map_err(|e| e.to_string())));
+                l.push(("toml_edit::ser::to_string(map of i128)", toml_edit::ser::to_string(&m).map(|t| t.replace("a = 1\n", "")).map_err(|e| e.to_string())));
+                l.push(("toml::Table::try_from(map of i128)", toml::Table::try_from(&m).map(|t| format!("v = {}", t.get("v").map(|x| x.to_string()).unwrap_or_else(|| "<entry missing>".into()))).map_err(|e| e.to_string())));
+                if v >= 0 {
+                    let mut m = std::collections::BTreeMap::new();
+                    m.insert("a".to_string(), 1u128);
+                    m.insert("v".to_string(), v as u128);
+                    l.push(("toml::to_string(map of u128)", toml::to_string(&m).map(|t| t.replace("a = 1\n", "")).map_err(|e| e.to_string())));
+                    l.push(("toml_edit::ser::to_string_pretty(map of u128)", toml_edit::ser::to_string_pretty(&m).map(|t| t.replace("a = 1\n", "")).map_err(|e| e.to_string())));
+                    if let Ok(x) = u64::try_from(v) {
+                        let mut m = std::collections::HashMap::new();
+                        m.insert("v".to_string(), x);
+                        l.push(("toml::to_string(map of u64)", toml::to_string(&m).map_err(|e| e.to_string())));
+                    }
+                }
+            }
             // the value serializers take a bare number; shown as `v = <number>` so that it reads back
             l.push(("toml::Value::try_from(i128)", toml::Value::try_from(v).map(|x| format!("v = {x}")).map_err(|e| e.to_string())));
             l.push(("toml_edit::ser::ValueSerializer(i128)", serde::Serialize::serialize(&v, toml_edit::ser::ValueSerializer::new()).map(|x| format!("v = {x}")).map_err(|e| e.to_string())));
@@ -247,6 +269,43 @@ impl C11 {
                                 }
                             }
                         }
+                    }
+                }
+            }
+        }
+    }
+
+    /// toml::Value / toml_edit values fed a number by another format's deserializer: an integer
+    /// beyond i64 must be refused, never turned into something else
+    fn foreign_number(&mut self, ctx: &mut Ctx, v: i128) {
+        use serde::de::IntoDeserializer;
+        use serde::Deserialize;
+        type E = serde::de::value::Error;
+        let fits = i64::try_from(v).is_ok();
+        let r = guarded(|| {
+            let mut l: Vec<(&'static str, Result<toml::Value, String>)> = Vec::new();
+            l.push(("Value::deserialize(i128)", toml::Value::deserialize(IntoDeserializer::<E>::into_deserializer(v)).map_err(|e| e.to_string())));
+            if v >= 0 {
+                l.push(("Value::deserialize(u128)", toml::Value::deserialize(IntoDeserializer::<E>::into_deserializer(v as u128)).map_err(|e| e.to_string())));
+                if let Ok(x) = u64::try_from(v) {
+                    l.push(("Value::deserialize(u64)", toml::Value::deserialize(IntoDeserializer::<E>::into_deserializer(x)).map_err(|e| e.to_string())));
+                    l.push(("Table::deserialize(map of u64)", {
+                        let m: std::collections::BTreeMap<String, u64> = [("v".to_string(), x)].into_iter().collect();
+                        toml::Table::deserialize(IntoDeserializer::<E>::into_deserializer(m)).map(|t| t.get("v").cloned().unwrap_or(toml::Value::String("<entry missing>".into()))).map_err(|e| e.to_string())
+                    }));
+                }
+            }
+            l
+        });
+        match r {
+            Err((loc, msg)) => ctx.violation(&format!("panic:{}", crate::short_loc(&loc)), format!("deserializing {v} into toml::Value panicked at {loc}: {msg}")),
+            Ok(list) => {
+                for (name, res) in list {
+                    ctx.count(&format!("reader/{name}"));
+                    match res {
+                        Err(_) => ctx.count(if fits { "serde-in/refused-although-fits (judged by C07)" } else { "serde-in/refused-out-of-range" }),
+                        Ok(toml::Value::Integer(i)) if fits && i as i128 == v => ctx.count("serde-in/exact"),
+                        Ok(other) => ctx.violation(&format!("inexact-deserialization-succeeded:{name}"), format!("{name} was handed {v} and produced {other:?}")),
                     }
                 }
             }
